@@ -11,15 +11,15 @@ CONFIGS_QUICK = ["A"]
 CONFIGS_THOROUGH = ["A", "R", "ASYNCSTD", "SMOL", "NIO", "GLOMMIO", "NOAPI"]
 TECHNIQUE = ('pairing rules on built MIR (capacity terms vs unchecked writes, store mutation vs size update, payload store vs Content-Length), flag-sensitive must-'
              'pass exploration of the Payload arm of send, representation-invariant lint of IndexMap, literal tables')
-LEVEL_TEXT = ('Decides clauses C03-a..g: in every arm of Response::send the summands of the reserved capacity cover, by provenance, each unchecked write into that '
+LEVEL_TEXT = ('Decides clauses C03-a..h: in every arm of Response::send the summands of the reserved capacity cover, by provenance, each unchecked write into that '
               'buffer, and only functions that reserved `size` call write_unchecked_to; every mutator of the response header stores updates `size` on each mutating '
               'path (including in-place changes of a stored value through the reference handed out by get_mut), with the literals the writer emits per entry kind; '
               "IndexMap's readers and its delete/set agree on which entries are live (no stale duplicate can be iterated); every function storing Content::Payload "
               'also sets Content-Length from the length of the same bytes (Content::Stream: chunked, no length); complete() drops length and body for 204 and length '
               'for streams and is called on every path of Router::handle; status lines and header names are well-formed tokens; on every flag-consistent path through'
               ' the Content::Payload arm of Response::send the payload bytes reach the connection exactly once (staged into the buffer that is then written, or '
-              'written directly), so the announced Content-Length is followed by that many bytes. Decides these clauses, not byte-level well-formedness for all '
-              'operation histories.')
+              'written directly), so the announced Content-Length is followed by that many bytes; insert, append and remove of a header given by name agree on '
+              'whether standard names are redirected to the standard store. Decides these clauses, not byte-level well-formedness for all operation histories.')
 
 HDR = r"^ohkami::response::headers::Headers$"
 
@@ -35,6 +35,7 @@ def run(ck, progs):
         ck.guard("C03-d PAIR body-length", lambda: c03d(ck, prog))
         ck.guard("C03-e DECISION complete", lambda: c03e(ck, prog))
         ck.guard("C03-g MUSTPASS payload sent", lambda: c03g(ck, prog))
+        ck.guard("C03-h SIBLING custom-name routing", lambda: c03h(ck, prog))
         if cfg == "A":
             ck.guard("C03-f TABLE", lambda: c03f(ck, prog))
     ck.config = None
@@ -559,3 +560,22 @@ def c03f(ck, prog):
     for v in [x["name"] for x in sadt["variants"]]:
         ok = lt.get(v) == "HTTP/1.1 %s\r\n" % st.get(v)
         ck.ob(R, "status-line:%s" % v, ok, ln.loc(None), "" if ok else "status line of %s is %r, expected 'HTTP/1.1 ' + message + CRLF" % (v, lt.get(v)), how=repr(lt.get(v)))
+
+
+def c03h(ck, prog):
+    """`every live header exactly once with its latest value and no removed or stale value`: insert, append and remove of a
+    header given by *name* must agree on the store the name lives in. Either all three custom-name operations redirect names
+    of standard headers to the standard store (Header::from_bytes) or none does; if only some do, a header set through one
+    store is appended to / removed from the other, and the wire carries a duplicate or a removed header."""
+    R = "C03-h SIBLING custom-name routing"
+    fam = {}
+    for nm in ("insert_custom", "append_custom", "remove_custom"):
+        f = prog.method(HDR, nm)
+        redirect = bool([c for g in [f] + prog.descendants(f.key) for c in g.calls() if re.search(r"response::headers::Header::from_bytes$", c.callee or "")])
+        fam[nm] = redirect
+    vals = set(fam.values())
+    ok = len(vals) == 1
+    ck.ob(R, "insert/append/remove agree", ok, prog.method(HDR, "insert_custom").loc(None),
+          "" if ok else "the custom-name header operations disagree on redirecting standard names to the standard store (%s): `.x(\"Vary\", \"Origin\")` then `.x(\"Vary\", append(..))` sends two Vary lines, "
+          "`.x(\"Cache-Control\", ..)` then `.x(\"Cache-Control\", None)` leaves the removed header on the wire" % ", ".join("%s: %s" % (k, "redirects" if v else "custom store") for k, v in sorted(fam.items())),
+          how="all three use %s" % ("the standard store for standard names" if True in vals else "the custom store only"))
